@@ -40,7 +40,7 @@ def floors(tier):
   f = {'ev:q_round_trip_claimed': 500 * k, 'ev:qd_round_trip_claimed': 200 * k,
        'ev:reported_q_is_inverse_image:spring': 60 * k,
        'ev:reported_q_is_inverse_image:positional': 60 * k,
-       'unclaimed_compared': 100 * k}
+       'unclaimed_compared': 100 * k, 'near_zero_states': 100 * k}
   for s in CLAIMED:
     f['claimed_sig:' + s] = 5 * (1 if tier == 'quick' else 10)
   return f
@@ -79,8 +79,16 @@ def run(job, mon):
 
     rtj = jax.jit(rt)
     states = []
-    for s in range(4):
+    for s in range(6):
       q, qd = gen.rand_state(rng, mj, qscale=1.2)
+      if s >= 4:
+        # the default pose and poses a hair away from it: joint coordinates
+        # exactly 0 / of order 1e-5 (arccos / arctan2 near their branch points)
+        for j in range(mj.njnt):
+          if mj.jnt_type[j] != 0:
+            q[mj.jnt_qposadr[j]] = 0.0 if s == 4 else float(
+                rng.uniform(-1, 1) * 10 ** rng.uniform(-6, -4))
+        mon.count('near_zero_states')
       states.append((q, qd))
       q2, qd2 = [np.asarray(a) for a in rtj(jp.array(q), jp.array(qd))]
       qa = da = 0
@@ -101,12 +109,12 @@ def run(job, mon):
                            qd=qd, q_back=q2, qd_back=qd2)
         if bd['free'] or (k['ortho'] and sig in CLAIMED):
           mon.err('q_round_trip_claimed', e)
-          mon.check('q_round_trip_claimed', e <= 1e-7, wit)
+          mon.check('q_round_trip_claimed', e <= 1e-6, wit)  # arccos near 1: sqrt(eps)
           if s == 0 and not bd['free']:
             mon.count('claimed_sig:' + sig)
         else:
           mon.count('unclaimed_compared')
-          if e <= 1e-7:
+          if e <= 1e-6:
             mon.count('unclaimed_q_matches')
           else:
             mon.known(K2C if not k['ortho'] else K2A, wit,
